@@ -152,6 +152,9 @@ def main(argv):
     sys.path.insert(0, VERIF)
     os.environ.setdefault('VERIF_REPO', REPO)
     t0 = time.time()
+    # harness modules may consult the repository when listing partitions
+    sys.path.insert(0, REPO)
+    sys.argv = ['ddsmt', 'in.smt2', 'out.smt2', 'cmd']
     mod = importlib.import_module(f'harness.{pid.lower()}')
     parts = mod.partitions(tier)
     if only:
